@@ -473,6 +473,7 @@ int Wave_Bank::find_duplicate(const Wave_Bank::Sample& header, const std::vector
 		// The reason for the loop start check is that some sound chips (like C352)
 		// require that the looping part of the sample fit in the same bank.
 		if(   i.position + sample.size() <= rom_data.size()
+		   && sample.size() <= i.size
 		   && i.loop_start <= header.loop_start
 		   && std::equal(sample.begin(), sample.end(), rom_data.begin() + i.position))
 			return id;
